@@ -530,6 +530,22 @@ def run(ctx):
             rt.inst(nm, c.loc(b["value"].get("sp")), "ok", {"polarity": wantc})
         else:
             rt.violate(nm, "runs its closure under polarity %s, expected `during::<_, %s>`" % (cs or "?", wantc), c.loc(b["value"].get("sp")))
+    # prepare's "clear" really forgets the older attempts (mutation scan: the body of Tracker::clear emptied)
+    clear_ok = False
+    for fid_, bs_ in c.bodies.items():
+        if strip_generics(fid_) == strip_generics(T + "prepare") or strip_generics(fid_) == strip_generics(T + "clear"):
+            for n in walk(bs_[0]["value"]):
+                if n["k"] == "mcall" and n.get("callee") and strip_generics(n["callee"]["path"]).endswith("BTreeMap::clear"):
+                    r_ = n["recv"]
+                    while r_["k"] in ("addr_of", "use", "cast"):
+                        r_ = r_["e"]
+                    if r_["k"] == "field" and r_["name"] == "attempts":
+                        clear_ok = True
+    if clear_ok:
+        rt.inst("clear", None, "ok", {"clears": "self.attempts"})
+    else:
+        rt.violate("clear", "neither prepare nor Tracker::clear empties `self.attempts`: attempts recorded at an earlier position would be "
+                            "reported at a later one")
     b = c.body(T + "get_entry")
     if b is not None:
         conds = [n for n in walk(b["value"]) if n["k"] == "binary" and n.get("op") in ("==", "!=", "<", ">", "<=", ">=")]
